@@ -257,6 +257,11 @@ func Replay(r *core.Run, engines []typed.Engine, fams []*rs.Schema, raw json.Raw
 }
 
 // sortTypedMaps orders the entries of every typed map inside v (struct field order is fixed by the type).
+// SortTypedMaps: the typed value with every typed map in the order a codec writes it.
+func SortTypedMaps(s *rs.Schema, t *rs.Type, v ref.Val, less func(a, b string) bool) ref.Val {
+	return sortTypedMaps(s, t, v, less)
+}
+
 func sortTypedMaps(s *rs.Schema, t *rs.Type, v ref.Val, less func(a, b string) bool) ref.Val {
 	if v.K == ref.KNull || v.K == ref.KAbsent {
 		return v
